@@ -21,7 +21,8 @@ OBJECTS = ["pkg", "pkg.a", "pkg.a.C", "pkg.a.C.m", "pkg.a.C.v", "pkg.a.D", "pkg.
 # extended model (C12): module b also has a subclass of a.C - a subclass ACROSS modules, hidden only through its module when b is
 # hidden - with a nested class that is itself a subclass of a.C
 SRC_B_X = SRC["pkg.b"] + 'class E(C):\n    """Class E, subclass across modules."""\n    class N(C):\n        """Nested class N."""\n'
-OBJECTS_X = OBJECTS + ["pkg.b.E", "pkg.b.E.N"]
+OBJECTS_X = OBJECTS + ["pkg.b.E", "pkg.b.E.N", "pkg.__main__", "pkg.__main__.run"]
+SRC_MAIN = '"""Main module: always private (Module.privacyClass)."""\ndef run():\n    """Run, see L{pkg.a.C}."""\n'
 PARENT = {n: (n.rsplit(".", 1)[0] if "." in n else None) for n in OBJECTS_X}
 PRIV = [model.PrivacyClass.HIDDEN, model.PrivacyClass.PRIVATE, model.PrivacyClass.PUBLIC]
 
@@ -38,6 +39,8 @@ def build(table=None, opts=None, extended=False):
     b.addModuleString(SRC["pkg"], "pkg", is_package=True)
     b.addModuleString(SRC["pkg.a"], "a", parent_name="pkg")
     b.addModuleString(SRC_B_X if extended else SRC["pkg.b"], "b", parent_name="pkg")
+    if extended:
+        b.addModuleString(SRC_MAIN, "__main__", parent_name="pkg")
     b.buildModules()
     return s
 
@@ -48,6 +51,8 @@ def default_privacy(name):
 
 
 def privacy_of(table, name):
+    if name == "pkg.__main__":
+        return model.PrivacyClass.PRIVATE          # a module named __main__ is private whatever the rules say
     return table.get(name, default_privacy(name))
 
 
